@@ -33,6 +33,26 @@ func (f funcPredicate) delete(object ngftypes.ObjectType, nsname types.Namespace
 	return f.stateChanged(object, nsname)
 }
 
+// upsertDeleteFuncPredicate applies one function on upsert and another one on delete. It is for kinds whose relevance
+// cannot be decided from a delete event, which carries only the type and the name of the object.
+// Implements stateChangedPredicate.
+type upsertDeleteFuncPredicate struct {
+	stateChangedOnUpsert func(object ngftypes.ObjectType, nsname types.NamespacedName) bool
+	stateChangedOnDelete func(object ngftypes.ObjectType, nsname types.NamespacedName) bool
+}
+
+func (f upsertDeleteFuncPredicate) upsert(_, newObject client.Object) bool {
+	if newObject == nil {
+		panic("new object cannot be nil")
+	}
+
+	return f.stateChangedOnUpsert(newObject, client.ObjectKeyFromObject(newObject))
+}
+
+func (f upsertDeleteFuncPredicate) delete(object ngftypes.ObjectType, nsname types.NamespacedName) bool {
+	return f.stateChangedOnDelete(object, nsname)
+}
+
 // annotationChangedPredicate implements stateChangedPredicate based on the value of the annotation provided.
 // This predicate will return true on upsert if the annotation's value has changed.
 // It always returns true on delete.
